@@ -659,7 +659,7 @@ STRUCT_CACHES = {"_buffer", "_offset", "_size", "_offsets", "_shape", "_strides"
 DERIVING = {"_from_buffer", "_array_from_buffer", "__get__", "__getitem__", "to_nplike", "to_nparray", "_get_size", "get_offset", "_get_offset", "to_bytearray", "get"}
 
 
-@rule("M4", ["C06", "C10"], "xobject handles keep (buffer, offset, structure caches) only: no view or value read from the buffer is memoised on a handle")
+@rule("M4", ["C06", "C10", "C18"], "xobject handles keep (buffer, offset, structure caches) only: no view or value read from the buffer is memoised on a handle")
 def m4(cx):
     """A handle is equivalent to a view rebuilt from (buffer, offset) because everything else it holds is a structure
     cache that every rewrite site re-derives (rules R10.refresh, M1, M3).  A child view or a value memoised on the
